@@ -1,29 +1,29 @@
 SPECIFICATION SimSpec
 CONSTANTS
   Keys = {1, 2}
-  Clients = {1}
-  MaxSize = 2
-  Costs = {1, 2, 3}
-  TTLs = {0, 1, 2}
-  QCap = 2
+  Clients = {1, 2, 3}
+  MaxSize = 1
+  Costs = {1}
+  TTLs = {0}
+  QCap = 1
   BatchMax = 2
-  MaxEnt = 9
-  MaxTime = 5
-  OpsPerClient = 7
-  Allowed <- AllowSeq
-  WithTicker = TRUE
+  MaxEnt = 6
+  MaxTime = 1
+  OpsPerClient = 2
+  Allowed <- AllowClose
+  WithTicker = FALSE
   Thresh = 30
   AdvSteps = {1}
   StallOnly = FALSE
-  Door = TRUE
+  Door = FALSE
   FixD2 = TRUE
   FixD6 = TRUE
   FixD7 = TRUE
   FixD16 = TRUE
   FixD10a = TRUE
-  Depth = 90
+  Depth = 60
   Gates <- GatesAll
   Shift = 30
   Start = 3
-  MaxTicks = 3
+  MaxTicks = 0
 CONSTRAINT Export
